@@ -18,7 +18,11 @@ EXPLANATION = (
     "every Cloneable subclass: clone blocks assign only to the clone, mutable per-retort containers are created in "
     "_calculate_derived (so a clone never shares them), replace/extend return the clone. (3) Write inventory: every "
     "attribute store outside constructors in retort, mediator and provider classes is an insert into a cache dict "
-    "created by _calculate_derived, or listed with a reason; facade caches are keyed by the complete argument tuple."
+    "created by _calculate_derived, or listed with a reason; facade caches are keyed by the complete argument tuple. "
+    "(4) Hidden memos anywhere in the package (sa/memo.py): every functools cache and every check-then-insert dictionary that "
+    "outlives a call is inventoried; the key must contain every parameter the stored value is computed from, must not be "
+    "built from user-supplied values compared by == without a type pairing, and must not sit in front of a loader, dumper "
+    "or coercer."
 )
 RULE = "one evaluation = one cached_call site / one attribute store / one clone block; all are non-trivial"
 ASSUMPTIONS = [
